@@ -36,6 +36,18 @@ type Case struct {
 	// non-string Go value whose string form contains it (named string type, []string, map,
 	// fmt.Stringer, *string, error).
 	Carrier string `json:"carrier,omitempty"`
+	// Pre: index into preludes - what a component file carries around its content (leading
+	// comment, blank lines, trailing comment); 0 = nothing. Only file-based sinks use it.
+	Pre int `json:"pre,omitempty"`
+}
+
+// preludes: text before / after the content of every component file (not the page, not layouts).
+var preludes = [][2]string{
+	{"", ""},
+	{"<!-- component -->\n", ""},
+	{"\n\n", "\n"},
+	{"<!-- a -->\n\n<!-- b -->\n", "\n<!-- end -->\n"},
+	{"  \n", "<!-- end -->"},
 }
 
 type namedString string
@@ -90,9 +102,14 @@ var neighbourhoods = []nb{
 
 // "in:<tag>" sinks place the value in the text of a special element (RCDATA textarea/title,
 // pre, option, table cell, button, heading, ...): the matching end tag in the value must stay text.
-var containerTags = []string{"textarea", "title", "pre", "option", "td", "li", "button", "h1", "a", "label", "code", "summary"}
+var containerTags = []string{"textarea", "title", "pre", "option", "td", "li", "button", "h1", "a", "label", "code", "summary", "noscript", "xmp", "iframe", "noembed", "noframes"}
 
-var sinks = []string{"in:textarea", "in:title", "in:pre", "in:option", "in:td", "in:li", "in:button", "in:h1", "in:a", "in:label", "in:code", "in:summary", "text", "vtext", "attr", "bound", "vbind", "class", "style", "loop", "loopattr", "loopchild", "incstatic", "incbound", "incattr", "inctplroot", "inctplrootattr", "slotinc", "slotincplain", "slotprop", "layout", "layoutattr", "ifself", "elseself"}
+// rawTextTags: an HTML parser reads their body as raw text and decodes no character references
+// there, so the text it reports is the value or its escaped spelling; only the parse (no new
+// element, no attribute) and the canary are asserted for them.
+var rawTextTags = map[string]bool{"xmp": true, "iframe": true, "noembed": true, "noframes": true}
+
+var sinks = []string{"in:textarea", "in:title", "in:pre", "in:option", "in:td", "in:li", "in:button", "in:h1", "in:a", "in:label", "in:code", "in:summary", "in:noscript", "in:xmp", "in:iframe", "in:noembed", "in:noframes", "nsattr", "text", "vtext", "attr", "bound", "vbind", "class", "style", "loop", "loopattr", "loopchild", "incstatic", "incbound", "incattr", "inctplroot", "inctplrootattr", "slotinc", "slotincplain", "slotprop", "layout", "layoutattr", "ifself", "elseself"}
 var encs = []string{"bare", "if", "else", "tplif", "nested", "loopchild", "elseif"}
 
 // tokens: the hostile alphabet. The first coreN are enumerated exhaustively.
@@ -130,6 +147,7 @@ type program struct {
 	useNb   bool
 	jsonish bool // static include prop: values starting with { or [ are decoded (documented)
 	multi   bool // the sink occurs several times: only parse-equality and the canary are asserted
+	rawish  bool // raw text element: only parse-equality and the canary are asserted
 }
 
 func build(c Case) program {
@@ -149,9 +167,26 @@ func build(c Case) program {
 		case "summary":
 			open, close = `<details><summary data-m="s">`, `</summary></details>`
 		}
-		return program{tpl: wrap(c.Enc, open+n.LS+`{{ v }}`+n.RS+close), useNb: true}
+		return program{tpl: wrap(c.Enc, open+n.LS+`{{ v }}`+n.RS+close), useNb: true, rawish: rawTextTags[tag]}
 	}
+	p := buildSink(c, n)
+	if p.files != nil {
+		pre := preludes[c.Pre%len(preludes)]
+		for name, src := range p.files {
+			if name == "page.vuego" || strings.HasPrefix(name, "layouts/") {
+				continue
+			}
+			p.files[name] = pre[0] + src + pre[1]
+		}
+	}
+	return p
+}
+
+func buildSink(c Case, n nb) program {
 	switch c.Sink {
+	case "nsattr":
+		// fallback markup inside <noscript>: an attribute of an element there
+		return program{tpl: wrap(c.Enc, `<noscript><img data-m="s" src="`+n.LS+`{{ v }}`+n.RS+`" alt="x"><p>{{ v }}</p></noscript>`), attr: "src", useNb: true}
 	case "text":
 		return program{tpl: wrap(c.Enc, `<p data-m="s">`+n.LS+`{{ v }}`+n.RS+`</p>`), useNb: true}
 	case "vtext":
@@ -269,7 +304,7 @@ var baseMu sync.Mutex
 var baseCache = map[string]string{}
 
 func baseline(c Case, p program) (string, error) {
-	key := fmt.Sprintf("%s|%s|%d|%s", c.Sink, c.Enc, c.Nb, c.Carrier)
+	key := fmt.Sprintf("%s|%s|%d|%s|%d", c.Sink, c.Enc, c.Nb, c.Carrier, c.Pre%len(preludes))
 	baseMu.Lock()
 	sk, ok := baseCache[key]
 	baseMu.Unlock()
@@ -328,6 +363,9 @@ func check(c Case) error {
 	}
 	if len(ms) != 1 {
 		return fmt.Errorf("sink element found %d times", len(ms))
+	}
+	if p.rawish {
+		return nil
 	}
 	n := neighbourhoods[c.Nb%len(neighbourhoods)]
 	l, r := "", ""
@@ -388,6 +426,9 @@ func classify(c Case) (bool, []string) {
 	if c.Nb%len(neighbourhoods) != 0 {
 		cls = append(cls, "static-neighbour-with-entities")
 	}
+	if c.Pre%len(preludes) != 0 && build(Case{Sink: c.Sink, Enc: "bare", Value: "x"}).files != nil {
+		cls = append(cls, "component-file-with-prelude")
+	}
 	return hostile(c.Value), cls
 }
 
@@ -445,7 +486,7 @@ func TestProp(t *testing.T) {
 					encList = encs
 				}
 				for _, e := range encList {
-					c := Case{Sink: s, Enc: e, Nb: ni, Value: v}
+					c := Case{Sink: s, Enc: e, Nb: ni, Value: v, Pre: (vi + si*2 + ni) % len(preludes)}
 					if (vi+si+ni)%3 == 0 {
 						c.Carrier = carriers[(vi+si*3+ni)%len(carriers)]
 					}
@@ -486,6 +527,7 @@ func TestProp(t *testing.T) {
 			Nb:      rapid.IntRange(0, len(neighbourhoods)-1).Draw(t, "nb"),
 			Value:   sb.String(),
 			Carrier: rapid.SampledFrom(carriers).Draw(t, "carrier"),
+			Pre:     rapid.IntRange(0, len(preludes)-1).Draw(t, "pre"),
 		}
 		if !applicable(c) {
 			c.Value = "<" + c.Value
